@@ -275,7 +275,7 @@ def cfg_script(cfg):
     return s
 
 
-def analyse_call(ctx, cfg, events, views, ret):
+def analyse_call(ctx, cfg, events, views, ret, skip=None):
     pv = model_views(ctx, cfg, events)
     if pv.get("bad", ["0"])[0] != "0":
         raise RuntimeError("pmodel route could not parse %s event lines" % pv["bad"][0])
@@ -291,6 +291,8 @@ def analyse_call(ctx, cfg, events, views, ret):
             redefined.add(int(p[3]))
     nrows = sum(int(dict(x.split("=") for x in v)["rows"]) for v in views.get("sel", {}).values())
     nerr_events = sum(1 for e in events if e.startswith("EV err "))
+    if ret == 0 and skip is not None:
+        bad += columns_oracle(events, views, skip=redefined | set(skip))
     # C08 relation: return value non-zero iff an ERROR event was recorded in this call
     if (ret != 0) != (nerr_events > 0):
         bad.append(("retval-vs-errors", f"return value {ret} with {nerr_events} ERROR events"))
@@ -314,7 +316,10 @@ def run_calls(ctx, exe, calls, db=DB, prelude=()):
         return [{"crash": "no-result", "stdout": out[-5:], "script": script}]
     res = []
     for (cfg, inp), rr, vr in zip(calls, runrec, vrec):
-        r = analyse_call(ctx, cfg, rr["events"], vr["views"], int(rr["args"][0]))
+        # numbers whose SELECTED_OUTPUT / USER_PUNCH definition changes in a later simulation are not judged by the columns oracle
+        late = {b[1] for k, sim in enumerate(parse_input(inp)) if k >= 1 for b in sim if b[0] in ("SELECTED_OUTPUT", "USER_PUNCH")}
+        skip = None if "INVERSE_MODELING" in inp else late
+        r = analyse_call(ctx, cfg, rr["events"], vr["views"], int(rr["args"][0]), skip=skip)
         r["script"] = script
         res.append(r)
     return res
@@ -654,6 +659,66 @@ def heading_before_open(sk, n):
     return o in sk and h in sk and sk.index(h) < sk.index(o)
 
 
+HEAD_ALIAS = {"temp": "temp(C)", "Alk": "Alk(eq/kgw)", "charge": "charge(eq)"}
+
+
+def columns_oracle(events, views, skip=()):
+    """C05: ColumnCount = number of headings of the heading line (one heading per column), and the k-th value punched in a
+    row is the k-th cell of that row in the table (columns in the same order: every text cell is its table cell).
+    Judged per user number with exactly one heading line in the call; not for numbers in `skip` (definitions changing
+    within the call)."""
+    bad = []
+    heads, rows, cur = {}, {}, {}
+    for e in events:
+        p = e.split(" ")
+        if p[1] == "pmsg" and (int(p[2]) & 16):
+            heads.setdefault(int(p[3]), []).append(unhx(p[4]))
+        elif p[1] in ("pd", "ps", "pi"):
+            cur.setdefault(int(p[3]), []).append(unhx(p[4]).decode("utf-8", "replace"))
+        elif p[1] == "endrow":
+            n = int(p[3])
+            rows.setdefault(n, []).append(cur.pop(n, []))
+    for n, tab in views.get("tab", {}).items():
+        if n in skip or tab[0] == "none" or n not in heads:
+            continue
+        parts = " ".join(tab).split(" | ")
+        if len(parts) < 2 or not parts[1]:
+            continue
+        T = [unhx(c[1:]).decode("utf-8", "replace") if c[1:] != "-" else "" for c in parts[1].split(";") if c.startswith("S")]
+        text = b"".join(heads[n])
+        hl = [x for x in text.split(b"\n")[:-1]] if text.endswith(b"\n") else None
+        if hl is None or len(hl) != 1:
+            continue
+        L = []
+        for tok in hl[0].decode("utf-8", "replace").split("\t"):
+            tok = tok.strip()
+            if tok and tok not in L:
+                L.append(tok)
+        Tn = []
+        for tname in T:
+            if not tname.startswith("no_heading_") and tname not in Tn:
+                Tn.append(tname)
+        def same(h, tname):
+            return tname == h or tname == h + "(mol/kgw)" or HEAD_ALIAS.get(h) == tname
+        if not T:
+            continue
+        if len(L) != len(Tn) or not all(same(h, tn) for h, tn in zip(L, Tn)):
+            k = next((i for i, (h, tn) in enumerate(zip(L, Tn)) if not same(h, tn)), min(len(L), len(Tn)))
+            bad.append(("sel-heading-columns", f"sel {n}: heading line has {len(L)} headings, table ColumnCount {len(T)}"
+                        f" (first difference at column {k}: heading {L[k] if k < len(L) else None!r}, table {Tn[k] if k < len(Tn) else None!r})"))
+            continue
+        for r_i, names in enumerate(rows.get(n, [])):
+            if len(set(names)) != len(names):
+                continue
+            idx = [T.index(x) if x in T else -1 for x in names]
+            if idx != list(range(len(names))):
+                k = next(i for i, v in enumerate(idx) if v != i)
+                bad.append(("sel-column-order", f"sel {n}: data row {r_i + 1}: value {k} ({names[k]!r}) is cell {idx[k]} of the table row, "
+                                                f"cell {k} of the text line"))
+                break
+    return bad
+
+
 def skeleton_of_events(events):
     """recorded punch_open calls and heading lines of a call: o<n> / h<n>"""
     sk = []
@@ -819,23 +884,69 @@ def fmt_queries(events, ts_before, info, ts_after):
     return q, meta
 
 
-def run_history(ctx, exe, inputs, cfgs, cells_cap=None, names=None, db=DB):
-    """one instance, one database load, the calls of a history (different inputs, switch changes in between).
-    Returns dict(calls=[per-call analysis], ...) or {"crash":...}"""
-    script = ["new", f"load {hx(db)}"]
+SPECIAL = ("@LOAD_OK", "@LOAD_MISSING", "@LOADSTR_BAD")
+BAD_DB_STRING = "SOLUTION_MASTER_SPECIES\n H H+ -1 1 1.008\nSOLUTION_SPECIES\n H+ = H+\n log_k 0\n Xx+ = Xx+\n log_k 0\nEND\n"
+# source shape followed by the model: are the output/log line vectors re-split when a call stops before do_run (no database)
+# and after a failed LoadDatabase? (code as written: no)
+REFRESHED = False
+
+
+def step_kind(inp, db_loaded):
+    if inp in SPECIAL:
+        return {"@LOAD_OK": "loadok", "@LOAD_MISSING": "loadfail", "@LOADSTR_BAD": "loadfail"}[inp]
+    return "run" if db_loaded else "nodb"
+
+
+def files_off(cfg):
+    c = dict(cfg)
+    for k in ("out", "log", "err"):
+        c[k] = (cfg[k][0], False)
+    return c
+
+
+def run_history(ctx, exe, inputs, cfgs, cells_cap=None, names=None, db=DB, noload=False):
+    """one instance, the steps of a history: Run* calls with different inputs and switch changes in between, and
+    (special inputs @LOAD_OK / @LOAD_MISSING / @LOADSTR_BAD) database loads that succeed or fail; `noload`: the instance
+    starts without a database. Returns dict(calls=[per-step analysis], ...) or {"crash":...}"""
+    script = ["new"] + ([] if noload else [f"load {hx(db)}"])
     for k, v in (names or {}).items():
         if k[0] == "sel":
             script += [f"cur {k[1]}", f"fname sel {hx(v)}"]
         else:
             script.append(f"fname {k[0]} {hx(v)}")
     ts = TextState()
-    infos, snaps = [], []
+    infos, snaps, kinds_ = [], [], []
+    db_loaded = not noload
+    EMPTY = dict(sims=[], late_redef=set(), ambiguous=set(), inverse=False)
     for cfg, inp in zip(cfgs, inputs):
-        script += cfg_script(cfg) + [f"run {hx(inp)}", "views"]
+        kind = step_kind(inp, db_loaded)
+        kinds_.append(kind)
+        if kind in ("loadok", "loadfail"):
+            op = {"@LOAD_OK": f"load {hx(db)}", "@LOAD_MISSING": f"load {hx('/nonexistent/verif_no_such.dat')}",
+                  "@LOADSTR_BAD": f"loadstr {hx(BAD_DB_STRING)}"}[inp]
+            script += cfg_script(cfg) + [op, "views"]
+            ts = TextState()                    # UnLoadDatabase: every definition and PRINT state is gone
+            db_loaded = (kind == "loadok")
+            infos.append(dict(EMPTY))
+        else:
+            script += cfg_script(cfg) + [f"run {hx(inp)}", "views"]
+            infos.append(ts.read_call(inp) if kind == "run" else dict(EMPTY))
         before = (dict(ts.hp), dict(ts.user_punch_on), {k: dict(v) for k, v in ts.up.items()})
-        infos.append(ts.read_call(inp))
-        snaps.append((before, (dict(ts.hp), dict(ts.user_punch_on), {k: dict(v) for k, v in ts.up.items()}), list(ts.defs)))
+        snaps.append((before, before, list(ts.defs)))
+    # (snapshots: the format relation needs the state before and after a call; recomputed below for real runs)
+    ts2 = TextState()
+    dbl = not noload
+    for k, (inp, kind) in enumerate(zip(inputs, kinds_)):
+        if kind in ("loadok", "loadfail"):
+            ts2 = TextState()
+            continue
+        if kind == "run":
+            b = (dict(ts2.hp), dict(ts2.user_punch_on), {x: dict(v) for x, v in ts2.up.items()})
+            ts2.read_call(inp)
+            snaps[k] = (b, (dict(ts2.hp), dict(ts2.user_punch_on), {x: dict(v) for x, v in ts2.up.items()}), list(ts2.defs))
     ncell_ops = 0
+    if kinds_ and kinds_[-1] != "run":
+        cells_cap = None                      # the tables exist only after a call that entered do_run
     if cells_cap is not None:
         last_defs = snaps[-1][2]
         for n in last_defs + [77, 0]:
@@ -845,15 +956,21 @@ def run_history(ctx, exe, inputs, cfgs, cells_cap=None, names=None, db=DB):
     if rc != 0:
         return {"crash": rc, "stderr": err[-800:], "script": script}
     recs = parse_output(out)
-    runrec = [r for r in recs if r["op"] == "run"]
+    runrec = [r for r in recs if r["op"] in ("run", "load")]
+    if not noload:
+        runrec = runrec[1:]                    # the initial database load
     vrec = [r for r in recs if r["op"] == "views"]
     if len(runrec) != len(inputs) or len(vrec) != len(inputs):
         return {"crash": "no-result", "stdout": out[-5:], "script": script}
     # ---- Lean history model: one invocation for the whole history
-    ml = []
-    for cfg, rr, vr in zip(cfgs, runrec, vrec):
-        selusers = sorted(vr["views"].get("tab", {}).keys())
-        ml += hist_cfg_lines(cfg, selusers) + rr["events"] + ["endcall"]
+    ml = [f"cfg refreshed {int(REFRESHED)}"]
+    TERM = {"run": "endcall", "nodb": "endcallnodb", "loadfail": "endloadfail"}
+    for cfg, rr, vr, kind in zip(cfgs, runrec, vrec, kinds_):
+        selusers = sorted(vr["views"].get("tab", {}).keys()) if kind == "run" else []
+        if kind == "loadok":
+            ml += ["loadok"]                                  # prints an empty report (keeps the blocks aligned; not compared)
+        else:
+            ml += hist_cfg_lines(cfg, selusers) + rr["events"] + [TERM[kind]]
     cell_specs = []
     if cells_cap is not None:
         for n in snaps[-1][2] + [77, 0]:
@@ -880,7 +997,9 @@ def run_history(ctx, exe, inputs, cfgs, cells_cap=None, names=None, db=DB):
         hoisted = True
     guarded = loop_guarded_by_print()
     sl = ["sk reset"]
-    for cfg, info in zip(cfgs, infos):
+    for cfg, info, kind in zip(cfgs, infos, kinds_):
+        if kind in ("loadok", "loadfail"):
+            sl.append("sk reset")
         sl.append(f"sk cfg {int(hoisted)} " + " ".join(f"{k}={int(v)}" for k, v in cfg["filesw"].items()))
         for s in info["sims"]:
             sl.append(f"sk sim {int(s['first'])} {int(s['pr_punch'] or not guarded)} {int(s['tidy'])} " + " ".join(f"{n}:{int(t)}" for n, t in s["blocks"]))
@@ -889,7 +1008,9 @@ def run_history(ctx, exe, inputs, cfgs, cells_cap=None, names=None, db=DB):
     # ---- dump model: one token per simulation stands for the text dump_ostream writes in that simulation
     TOK = "ABCDEFGHIJKLMNOPQRSTUVWXYZabcdefghijklmnopqrstuvwxyz0123456789"
     dl, tk = ["dm reset"], 0
-    for cfg, info in zip(cfgs, infos):
+    for cfg, info, kind in zip(cfgs, infos, kinds_):
+        if kind in ("loadok", "loadfail"):
+            dl.append("dm unload")
         dl.append(f"dm cfg {int(cfg['dump'][1])} {int(cfg['dump'][0])}")
         for s in info["sims"]:
             dl.append(f"dm sim {int(s['dump'] is not None)} {s['dump'] or '0'} {int(s['pr_dump'])} {TOK[tk % len(TOK)]}")
@@ -903,11 +1024,27 @@ def run_history(ctx, exe, inputs, cfgs, cells_cap=None, names=None, db=DB):
     res = []
     prev_views = None
     dump_ok = True
+    chain_ok = True          # every call since the last successful load completed without error
     for k, (cfg, inp, rr, vr, blk, info) in enumerate(zip(cfgs, inputs, runrec, vrec, blocks, infos)):
+        kind = kinds_[k]
         pv = parse_model_block(blk)
         if pv.get("bad", ["0"])[0] != "0":
             raise RuntimeError("pmodel route could not parse %s event lines" % pv["bad"][0])
         views, events, ret = vr["views"], rr["events"], int(rr["args"][0])
+        if kind in ("loadok", "loadfail"):
+            cfg = files_off(cfg)             # LoadDatabase forces the three file switches off while it runs
+        if kind == "loadok":
+            # views are those of the internal test run (not modelled); files must be untouched, the model state is reset
+            bad = []
+            if prev_views is not None:
+                for name in ("out", "log", "err", "dump"):
+                    if views[name + "file"][2] != prev_views[name + "file"][2]:
+                        bad.append((name + "-disabled-file-written", f"{name}: file changed during LoadDatabase"))
+            res.append({"diffs": [], "oracle": bad, "ret": ret, "events": len(events), "views": views, "info": info, "rows": 0,
+                        "redefined": [], "call": k, "rel": [], "sk_impl": [], "kept_off": 0, "dup_heading": [], "kind": kind})
+            prev_views = views
+            dump_ok, chain_ok = (ret == 0), (ret == 0)
+            continue
         diffs = compare_call(cfg, views, pv)
         # files are compared whatever the switch says: the model carries the content earlier calls left on disk
         for name in ("out", "log", "err"):
@@ -939,10 +1076,11 @@ def run_history(ctx, exe, inputs, cfgs, cells_cap=None, names=None, db=DB):
         r = {"diffs": diffs, "oracle": bad, "ret": ret, "events": len(events), "views": views, "info": info,
              "rows": sum(int(dict(x.split("=") for x in v)["rows"]) for v in views.get("sel", {}).values()),
              "redefined": sorted(info["late_redef"]), "call": k, "rel": [],
-             "sk_impl": skeleton_of_events(events), "kept_off": kept_off}
+             "sk_impl": skeleton_of_events(events), "kept_off": kept_off, "kind": kind}
         # relation: defined numbers read from the texts = numbers the object reports (error-free calls)
-        judged = (ret == 0 and not info["inverse"])
-        if judged and all(x["ret"] == 0 for x in res):
+        judged = (kind == "run" and ret == 0 and not info["inverse"])
+        chain_ok = chain_ok and ret == 0 and kind == "run"
+        if judged and chain_ok:
             impl_defs = sorted(views.get("sel", {}).keys())
             if impl_defs != snaps[k][2]:
                 r["rel"].append(("defs", f"defined user numbers {impl_defs}, input texts say {snaps[k][2]}"))
@@ -950,6 +1088,8 @@ def run_history(ctx, exe, inputs, cfgs, cells_cap=None, names=None, db=DB):
                 hp = dict(x.split("=") for x in meta).get("hp")
                 if hp is not None and n in snaps[k][1][0] and n not in info["ambiguous"] and int(hp) != int(snaps[k][1][0][n]):
                     r["rel"].append(("hp", f"sel {n}: engine high_precision {hp}, input texts say {int(snaps[k][1][0][n])}"))
+            r["oracle"] += columns_oracle(events, views, skip=set(info["late_redef"]) | set(info["ambiguous"]))
+            r["columns_judged"] = True
             isk = skeleton_of_events(events)
             r["sk_impl"], r["sk_model"] = isk, skout[k]
             if isk != skout[k]:
@@ -1030,9 +1170,9 @@ def run_history(ctx, exe, inputs, cfgs, cells_cap=None, names=None, db=DB):
     return {"calls": res, "cells": out_cells, "script": script, "hoisted": hoisted, "shape_unknown": shape_unknown}
 
 
-def handle_history_result(ctx, inputs, cfgs, k, r, hoisted):
+def handle_history_result(ctx, inputs, cfgs, k, r, hoisted, noload=False):
     """violation protocol for call k of a history"""
-    rep = {"history": inputs[:k + 1], "cfgs": [cfg_json(c) for c in cfgs[:k + 1]], "call": k, "kind": "history"}
+    rep = {"history": inputs[:k + 1], "cfgs": [cfg_json(c) for c in cfgs[:k + 1]], "call": k, "kind": "history", "noload": noload}
     cfg, inp = cfgs[k], inputs[k]
     mixed = explained_by_switch_rule(cfg)
     if r["diffs"]:
@@ -1059,6 +1199,10 @@ def handle_history_result(ctx, inputs, cfgs, k, r, hoisted):
         if key in ("sel-string-rows", "sel-file-rows", "sel-file-ne-string") and n_user in r["redefined"]:
             # narrow rule: a SELECTED_OUTPUT n block that the INPUT TEXT of this call re-reads in a later simulation
             ctx.finding("selected-output-redefined-within-call", text, dict(rep, oracle=r["oracle"][:5]))
+        elif key in ("out-lines", "log-lines") and r.get("kind") in ("nodb", "loadfail") and not REFRESHED:
+            # narrow rule: a Run* call stopped by "No database is loaded" or a failed LoadDatabase(String): do_run, which
+            # splits the output/log strings into the line vectors, is never reached
+            ctx.finding("lines-not-split-without-do-run", text, dict(rep, oracle=r["oracle"][:5], step=r.get("kind")))
         elif key.startswith("sel-") and mixed:
             ctx.finding("get_sel_out_string_on-ignores-n", text, dict(rep, oracle=r["oracle"][:5]))
         else:
@@ -1079,13 +1223,13 @@ def run_histories(ctx, exe, n, with_cells=True):
         if i < 0:
             cd = _json.loads(corpus[i + len(corpus)].read_text())
             c_inputs, c_cfgs = cd["history"], [cfg_from_json(c) for c in cd["cfgs"]]
-            res = run_history(ctx, exe, c_inputs, c_cfgs, cells_cap=cd.get("cap"))
+            res = run_history(ctx, exe, c_inputs, c_cfgs, cells_cap=cd.get("cap"), noload=cd.get("noload", False))
             if "crash" in res:
                 ctx.violation("corpus history crashed", dict(cd, kind="history"))
                 break
             for k, r in enumerate(res["calls"]):
                 hist["calls"] += 1
-                handle_history_result(ctx, c_inputs, c_cfgs, k, r, res["hoisted"])
+                handle_history_result(ctx, c_inputs, c_cfgs, k, r, res["hoisted"], cd.get("noload", False))
             if ctx.violations:
                 break
             continue
@@ -1113,10 +1257,31 @@ def run_histories(ctx, exe, n, with_cells=True):
                       + f"USER_PUNCH {u}\n -headings late_a late_b late_c\n 10 IF (STEP_NO > 0) THEN PUNCH 1\n"
                       + "USE solution 1\nREACTION 1\n NaCl 1\n 0.1 moles in 2 steps\nEND\n"]
             kinds = ["define", "late-block"]
-        if i % 7 == 3:
+        elif i == 3:
+            # forced: an instance that never had a database, a successful load, a failed load, every out/err/log sink on
+            inputs = [gi.solution(ctx.rng, 1) + "END\n", "@LOAD_OK", gi.solution(ctx.rng, 1) + "END\n", "@LOAD_MISSING",
+                      gi.solution(ctx.rng, 2) + "END\n", "@LOADSTR_BAD", gi.solution(ctx.rng, 3) + "END\n"]
+            kinds = ["nodb", "load", "plain", "load", "nodb", "load", "nodb"]
+            forced = "allon"
+        if i % 7 == 3 and i != 3:
             # forced: definitions of several blocks in call 1, no block in call 2 (the re-open path of do_run)
             inputs[1:2] = [gi.solution(ctx.rng, 50) + "END\n"]
             kinds[1:2] = ["plain"]
+        noload = (forced == "allon")
+        if forced is None and ctx.rng.random() < 0.22:
+            # database events: the instance starts without a database and/or loads fail in the middle of the history
+            seg2, k2 = gi.history(ctx.rng, ncalls=ctx.rng.randint(1, 3))
+            if ctx.rng.random() < 0.5:
+                noload = True
+                inputs, kinds = inputs[:ctx.rng.randint(1, 2)], ["nodb"] * 2
+                inputs += ["@LOAD_OK"]
+            else:
+                inputs += [ctx.rng.choice(["@LOAD_MISSING", "@LOADSTR_BAD"])] + [gi.solution(ctx.rng, 60) + "END\n"] * ctx.rng.randint(0, 2)
+                if ctx.rng.random() < 0.7:
+                    inputs += ["@LOAD_OK"]
+            if inputs[-1] == "@LOAD_OK":
+                inputs += seg2
+            kinds = [("load" if x in SPECIAL else "seg") for x in inputs]
         nums = sorted({b[1] for t in inputs for s in parse_input(t) for b in s if b[0] == "SELECTED_OUTPUT"})
         cfgs, prev = [], None
         for _ in inputs:
@@ -1128,6 +1293,8 @@ def run_histories(ctx, exe, n, with_cells=True):
             elif forced == "mixed":
                 prev["strsw"] = {1: True, 2: False}
                 prev["cur"] = 1
+            elif forced == "allon":
+                prev["out"] = prev["log"] = prev["err"] = (True, True)
             cfgs.append(prev)
         names = {}
         if ctx.rng.random() < 0.3:
@@ -1135,28 +1302,32 @@ def run_histories(ctx, exe, n, with_cells=True):
             for u in nums[:2]:
                 names[("sel", u)] = f"sel_{u}.custom"
         cap = ctx.rng.choice([1, 5, 12, 13, 24, 48, 100, 160]) if with_cells and ctx.rng.random() < 0.6 else None
-        res = run_history(ctx, exe, inputs, cfgs, cells_cap=cap, names=names)
+        res = run_history(ctx, exe, inputs, cfgs, cells_cap=cap, names=names, noload=noload)
         hist["histories"] += 1
         if "crash" in res:
-            ctx.violation("harness run crashed / gave no result", {"history": inputs, "cfgs": [cfg_json(c) for c in cfgs], "result": res, "kind": "history"})
+            ctx.violation("harness run crashed / gave no result", {"history": inputs, "cfgs": [cfg_json(c) for c in cfgs], "result": res, "kind": "history", "noload": noload})
             break
         hist["shape_unknown"] = hist.get("shape_unknown", False) or res.get("shape_unknown", False)
         for k, r in enumerate(res["calls"]):
             hist["calls"] += 1
-            hist["kinds"][kinds[k]] = hist["kinds"].get(kinds[k], 0) + 1
+            kk = kinds[k] if k < len(kinds) else "seg"
+            hist["kinds"][kk] = hist["kinds"].get(kk, 0) + 1
+            hist["steps"] = hist.get("steps", {})
+            hist["steps"][r.get("kind", "run")] = hist["steps"].get(r.get("kind", "run"), 0) + 1
             hist["calls_with_rows"] += 1 if r["rows"] else 0
             hist["calls_with_errors"] += 1 if r["ret"] else 0
             hist["late_redefinitions"] += 1 if r["redefined"] else 0
             hist["format_cells_judged"] += r.get("fmt_judged", 0)
             hist["schedule_judged"] += 1 if "sk_model" in r else 0
             hist["dup_heading_calls"] += 1 if r.get("dup_heading") else 0
+            hist["columns_judged"] = hist.get("columns_judged", 0) + (1 if r.get("columns_judged") else 0)
             hist["files_kept_while_off"] += r.get("kept_off", 0)
             hist["dump_calls_judged"] = hist.get("dump_calls_judged", 0) + (1 if r.get("dump_judged") else 0)
             hist["dump_both_on_calls"] = hist.get("dump_both_on_calls", 0) + (1 if r.get("dump_both_on") else 0)
             if "sk_impl" in r and any(x[0] == "o" for x in r["sk_impl"]) and not any(b for s in r["info"]["sims"] for b in s["blocks"]):
                 hist["calls_reopen_without_block"] += 1
             distinct.add(hash((inputs[k], str(cfgs[k]), k)))
-            handle_history_result(ctx, inputs, cfgs, k, r, res["hoisted"])
+            handle_history_result(ctx, inputs, cfgs, k, r, res["hoisted"], noload)
             if ctx.violations:
                 break
         if ctx.violations:
@@ -1165,7 +1336,7 @@ def run_histories(ctx, exe, n, with_cells=True):
             hist["binding_cells"] += cnt
             if d:
                 ctx.violation("bindings: C / C++ / Value2 / Fortran accessors vs Model/SelOut: " + d,
-                              {"history": inputs, "cfgs": [cfg_json(c) for c in cfgs], "user": n_user, "cap": cap, "kind": "history"})
+                              {"history": inputs, "cfgs": [cfg_json(c) for c in cfgs], "user": n_user, "cap": cap, "kind": "history", "noload": noload})
                 break
         if ctx.violations:
             break
@@ -1183,13 +1354,13 @@ def replay_history(ctx, data):
     exe = ctx.build_harness("ph_trace")
     inputs = data["history"]
     cfgs = [cfg_from_json(c) for c in data["cfgs"]]
-    res = run_history(ctx, exe, inputs, cfgs, cells_cap=data.get("cap"))
+    res = run_history(ctx, exe, inputs, cfgs, cells_cap=data.get("cap"), noload=data.get("noload", False))
     if "crash" in res:
         ctx.violation("crash on replay", data)
         return
     for k, r in enumerate(res["calls"]):
         print("replay call", k, {x: r[x] for x in ("diffs", "oracle", "rel", "ret", "rows")})
-        handle_history_result(ctx, inputs, cfgs, k, r, res["hoisted"])
+        handle_history_result(ctx, inputs, cfgs, k, r, res["hoisted"], data.get("noload", False))
     for n_user, d, cnt in (res["cells"] or []):
         if d:
             ctx.violation("bindings: " + d, data)
